@@ -439,8 +439,57 @@ def check_sibling(ctx, setup, s1, lip, s2):
         from ..normalise import Defs, expand
         m = expand(grp[0].args[0], Defs(s1['outer'].body))
         want = '(%s)' % ','.join(s1['names'])
-        ctx.ob('exactly-once', setup, grp[0], U(m).replace(' ', '') == want,
-               'the stored measurement must be the tuple %s of the loop; stores `%s`' % (want, U(m)))
+        ok = U(m).replace(' ', '') == want
+        detail = ''
+        if not ok and isinstance(m, ast.Tuple) and len(m.elts) == 4:
+            # whitening at setup: the tuple may hold (Q*a, y*b, n', proj) as long as the residual the loss will form from it,
+            # (Q' x - y') / n', is still (Q x - y) / noise:  a / n' == b / n' == 1 / noise
+            ok, detail = whitened_ok(s1['outer'].body, m, s1['names'])
+        ctx.ob('exactly-once', setup, grp[0], ok,
+               'the stored measurement must be the tuple %s of the loop (or a rescaling of it that leaves (Q x - y)/noise unchanged); '
+               'stores `%s`%s' % (want, U(m), detail))
+
+
+def whitened_ok(body, m, names):
+    Qn, yn, nn, pn = names
+    scale = {Qn: const(1), yn: const(1), nn: sym(nn)}
+    ev = SymEval({nn: sym(nn)}, Atoms(), strict=True)
+    for st in body:
+        if any(st is x or m in list(ast.walk(st)) for x in ()):
+            break
+        tgt = val = None
+        if isinstance(st, ast.Assign) and len(st.targets) == 1 and isinstance(st.targets[0], ast.Name) and st.targets[0].id in (Qn, yn):
+            tgt, val = st.targets[0].id, st.value
+        elif isinstance(st, ast.AugAssign) and isinstance(st.target, ast.Name) and st.target.id in (Qn, yn) and isinstance(st.op, (ast.Mult, ast.Div)):
+            tgt = st.target.id
+            val = ast.BinOp(left=ast.Name(id=tgt, ctx=ast.Load()), op=st.op, right=st.value)
+        if tgt is None:
+            continue
+        k = None
+        if isinstance(val, ast.BinOp) and isinstance(val.op, (ast.Mult, ast.Div)):
+            l, r = val.left, val.right
+            try:
+                if isinstance(l, ast.Name) and l.id == tgt:
+                    k = ev.ev(r)
+                    k = const(1) / k if isinstance(val.op, ast.Div) else k
+                elif isinstance(r, ast.Name) and r.id == tgt and isinstance(val.op, ast.Mult):
+                    k = ev.ev(l)
+            except AnalysisError:
+                k = None
+        if k is None:
+            return False, '; `%s` is not a scalar rescaling by the noise level' % U(st)
+        scale[tgt] = scale[tgt] * k
+    e_Q, e_y, e_n, e_p = m.elts
+    if U(e_Q) != Qn or U(e_y) != yn or U(e_p) != pn:
+        return False, ''
+    try:
+        n_eff = ev.ev(e_n)
+    except AnalysisError:
+        return False, '; stored noise level `%s` is not a scalar expression of the noise' % U(e_n)
+    want = const(1) / sym(nn)
+    a, b = scale[Qn] / n_eff, scale[yn] / n_eff
+    ok = a.eq(want) and b.eq(want)
+    return ok, '; effective residual (%r Q x - %r y), required (1/%s)(Q x - y)' % (a, b, nn)
 
 
 # ---- loss, gradient -------------------------------------------------------------------------------------------------------------
